@@ -22,3 +22,35 @@ Example C14_equal_values_kept :
               at_neg := false; at_before := false; at_after := false; at_initial := false; at_final := false |} in
   print_atom true a = "connected_to(node(_,_))" /\ print_atom false a = "connected_to(_,_)".
 Proof. vm_compute. split; reflexivity. Qed.
+
+(* ---- wrapped groups (Asp/PrintTree.v) ---- *)
+Require Import Coq.Sorting.Permutation.
+Require Import Cnl2aspV.Base.Str Cnl2aspV.Asp.PrintTree.
+
+(* what function-term mode prints for ANY atom (negated, primed, initial/final included) is the text of a tree: the decorated
+   predicate name, then the printed sub-trees; a sub-tree is an argument value or a group named after the concept it is inherited from *)
+Theorem C14_function_terms_are_a_tree :
+  forall a : atom, at_name a <> "" ->
+  print_atom true a = atom_prefix a ++ join "," (map print_t (match atom_tree a with FNode _ kids => kids | FLeaf _ => [] end)) ++ ")".
+Proof. exact print_atom_fn_is_tree. Qed.
+Print Assumptions C14_function_terms_are_a_tree.
+
+(* flattening that tree gives back the atom's arguments: no argument is dropped and none is duplicated, for every atom with any number
+   of attributes, any values (equal values included), origin chains of any depth, groups in any positions.
+   PARTIAL: 'not reordered' (the leaves in the ORDER of the default program) holds when the attributes inherited from one concept are
+   adjacent; that part is decided per program by the oracle (clingo.ast flattening), not proved. *)
+Theorem C14_no_argument_dropped_or_duplicated_partial :
+  forall a : atom, at_name a <> "" -> Forall ok_attr (at_attrs a) ->
+  Permutation (leaves (atom_tree a)) (map a_value (at_attrs a)).
+Proof. exact atom_tree_leaves. Qed.
+Print Assumptions C14_no_argument_dropped_or_duplicated_partial.
+
+Example C14_tree_example :
+  let c := {| on_name := "city"; on_forms := ["city"; "cities"; "city"] |} in
+  let s := {| on_name := "street"; on_forms := ["street"; "streets"; "street"] |} in
+  let a := {| at_name := "house";
+              at_attrs := [ {| a_name := "name"; a_value := """rome"""; a_origin := [s; c] |}; {| a_name := "label"; a_value := "5"; a_origin := [s] |};
+                            {| a_name := "number"; a_value := "2"; a_origin := [] |} ];
+              at_neg := false; at_before := false; at_after := false; at_initial := false; at_final := false |} in
+  print_atom true a = "house(street(city(""rome""),5),2)" /\ leaves (atom_tree a) = ["""rome"""; "5"; "2"].
+Proof. vm_compute. split; reflexivity. Qed.
